@@ -180,6 +180,11 @@ class SeriesOps:
             return s.with_term(("map", ("func", fn.qualname), s.term))
         if isinstance(fn, dict):
             return s.with_term(("mapdict", to_term(fn), s.term))
+        # law: s.map({k: f(k) for k in s.unique()}) == s.apply(f)   (a lookup table built from the column's own distinct values)
+        if isinstance(fn, tuple) and len(fn) == 5 and fn[0] == "comp" and fn[1] == "dict" and fn[4] == T.TRUE and isinstance(fn[2], tuple) and fn[2] and fn[2][0] == "kv":
+            it = fn[3]
+            if isinstance(it, tuple) and it and it[0] == "unique" and it[1] == s.term and fn[2][1] == ("elem", it):
+                return s.with_term(T.renorm(T.replace(fn[2][2], {("elem", it): s.term})))
         # a library / builtin function passed by reference: s.apply(math.ceil) is s.apply(lambda x: math.ceil(x)) (eta-expansion)
         fexpr = None
         if isinstance(node, ast.Call):
